@@ -48,7 +48,7 @@ def gen_scenario(rng, crash):
         elif r < 65:
             ops.append("claim %d %d" % (rng.below(4), rng.below(2)))
         elif r < 68:
-            ops.append(rng.choice(["fail %d %d" % (rng.below(4), rng.below(2)), "evhold %d on" % rng.below(4), "evhold %d off" % rng.below(4),
+            ops.append(rng.choice(["fail %d %d" % (rng.below(4), rng.below(2)), "evhold %d on" % rng.below(4), "evhold %d off" % rng.below(4), "decode %d" % rng.below(4), "decode 1",
                                    "fc %d %d" % (rng.below(4), rng.below(3))]))
         elif r < 80:
             ops.append("cany %d" % rng.below(8))
@@ -97,9 +97,11 @@ def gen_collide(rng, crash):
     dst2 = rng.choice([src1, 1, dst1])
     ops.append("send %d %d %d" % (src2, dst2, rng.choice([1000000, 2000000])))
     ops += ["dany 0"] * rng.range(4, 7)
+    ops.append("decode 1")
     if rng.chance(1, 2):
         ops.append("send %d %d %d" % (src1, rng.choice([src2, 1]), 2000000))
         ops += ["dany 0"] * rng.range(3, 6)
+        ops.append("decode 1")
     # the channel HTLC1 went out over is closed before the restart
     closer = rng.choice([1, dst1])
     ops.append("fc %d %d" % (closer, {0: 0, 2: 1, 3: 2}[dst1] if closer == 1 else 0))
@@ -120,6 +122,8 @@ def gen_closed_claim(rng, crash):
         other = rng.choice([x for x in (0, 2, 3) if x != crash])
         ops.append("send %d %d %d" % (other, crash if rng.chance(1, 2) else rng.choice([y for y in (0, 1, 2, 3) if y != other]), 2000000))
     _run_to_claimable(ops, rng.range(14, 24))
+    if rng.chance(1, 2):
+        ops.append("evhold %d on" % crash)
     ops.append("claim %d 0" % dst)
     ops += ["dany 0"] * rng.range(1, 4)
     first = peer if crash == 1 else 1
@@ -157,7 +161,7 @@ def enumerate_trials(rng, mode, ops, per_point, crash, event_steps=()):
         combos = sorted(set(combos))
         if per_point and len(combos) > per_point:
             # always keep the two extremes (and the pending-events snapshot where there are events), sample the rest
-            keep = [c for c in combos if c[0] in (0, k) and c[1] in ("max", "min") and c[2] == 0]
+            keep = [c for c in combos if (c[0] in (0, k) and c[1] in ("max", "min") and c[2] == 0 and c[3] == 0) or c[3] == 2]
             if k in event_steps:
                 keep += [c for c in combos if c[2] == 1]
             rest = [c for c in combos if c not in keep]
@@ -169,7 +173,9 @@ def enumerate_trials(rng, mode, ops, per_point, crash, event_steps=()):
             # the application's event handler fails (Err(ReplayEvent)) for one persistent event kind during the
             # first recovery: always together with a second crash on the stale manager, sometimes otherwise
             evfail = ""
-            if rec == 2 or rng.chance(1, 5):
+            if rec == 2:
+                evfail = "PaymentSent,PaymentFailed,PaymentForwarded,PaymentClaimed,PaymentPathSuccessful,PaymentPathFailed"
+            elif rng.chance(1, 5):
                 evfail = rng.choice(["PaymentSent", "PaymentFailed", "PaymentForwarded", "PaymentClaimed", "PaymentPathSuccessful",
                                      "PaymentSent,PaymentPathSuccessful", "ChannelClosed", "PaymentClaimable"])
             trials.append("%s crash=%d k=%d lag=%d mon=%s pre=%d recrash=%d path=%s evfail=%s ; %s" % (
@@ -281,6 +287,18 @@ def judge(r):
                     if ups[j] != s["mon"] + 1 + j:
                         bad("replay", "chan %s: update ids after reload not consecutive from the monitor's id %d: %s" % (chan, s["mon"], ups))
                         break
+    evs = r.get("all_events", [])
+    # Known finding F4: before the crash the node force-closed a channel (its own decision or the peer's error) while
+    # monitor updates of that channel were still in flight; applying ChannelForceClosed broadcasts the LATEST holder
+    # commitment from the in-memory monitor at once. If the in-flight writes never land, the monitor read back after the
+    # crash does not know the commitment transaction that is on chain and cannot resolve its HTLCs.
+    n_after0 = len(r.get("events_after", []))
+    before0 = evs[:len(evs) - n_after0] if n_after0 <= len(evs) else []
+    f4_chans = set()
+    for d in r["disk"]:
+        if d["chosen"] < d["handed"] and any(e[0] == x and e[1] == "ChannelClosed" and e[2].startswith(d["chan"]) for e in before0):
+            f4_chans.add(d["chan"])
+    f4key = "F4-holder-commitment-broadcast-from-unpersisted-monitor-state" if f4_chans else None
     # ---- no collateral damage: a channel may close only because its manager state was stale, because the scenario
     # force-closed it, or as the peer's reaction to either
     stale_chans = set(s["chan"] for s in r["snap"] if 0 <= s["mgr_latest"] < s["mon"])
@@ -297,17 +315,6 @@ def judge(r):
     # ---- payments
     evs = r.get("all_events", [])
     closed_any = bool(r["closed"])
-    # Known finding F4: before the crash the node force-closed a channel (its own decision or the peer's error) while
-    # monitor updates of that channel were still in flight; applying ChannelForceClosed broadcasts the LATEST holder
-    # commitment from the in-memory monitor at once. If the in-flight writes never land, the monitor read back after the
-    # crash does not know the commitment transaction that is on chain and cannot resolve its HTLCs.
-    n_after0 = len(r.get("events_after", []))
-    before0 = evs[:len(evs) - n_after0] if n_after0 <= len(evs) else []
-    f4_chans = set()
-    for d in r["disk"]:
-        if d["chosen"] < d["handed"] and any(e[0] == x and e[1] == "ChannelClosed" and e[2].startswith(d["chan"]) for e in before0):
-            f4_chans.add(d["chan"])
-    f4key = "F4-holder-commitment-broadcast-from-unpersisted-monitor-state" if f4_chans else None
     if closed_any:
         st["closed_onchain"] = 1
     for p in r["payments"]:
